@@ -369,6 +369,9 @@ def run_C13(ctx):
             if len(ctx.samples) < 6 and (ctx.evaluations % 97 == 3):
                 ctx.sample(dict(input=name, bytes=len(b), go=o.get('go', '')[:80], ts=o.get('ts', '')[:80], debug=o.get('debug', '')[:80]))
         ctx.extra['outcome_classes'] = {'/'.join(k): v for k, v in sorted(classes.items())}
+        # the lexer model (total by construction, fuel |input|+1 proved sufficient) against the real lexer on the same texts
+        import lexmodel
+        ctx.extra['lexer_model'] = lexmodel.compare(ctx, [b for (_, b) in texts], paths, 'C13')
         # the real CLI in separate processes on a sample (process-level: exit, no hang)
         rnd = random.Random(ctx.seed + 77)
         sample = [i for i, (n, _) in enumerate(texts) if n.startswith('t')] + rnd.sample(range(len(texts)), min(len(texts), 60 if ctx.quick else 600))
